@@ -18,26 +18,27 @@ From YP Require Import Base.Str Term.Term Unify.UnifyGen Engine.GenMachine Engin
 Section EbHeap.
   Variable E P : Type.
   Variable prog : P -> code (term * term) E P * E.
+  Variable gho : E -> nat.          (* ghost of the frame machine (C03): not used by the execution *)
 
   (* the heap that evaluate_bounded leaves: k resumptions (stopping early if one does not yield), then close *)
   Definition eb_final_heap (n d k : nat) (h : heap) (c : code (term * term) E P) (e : E) : option heap :=
-    match nexts umkleaf ulnext ulclose prog n d k h (IFresh c e) with
+    match nexts umkleaf ulnext ulclose prog gho n d k h (IFresh c e) with
     | Some (hf, itf, _, _) => Some (iclose (L:=gen) (X:=term*term) (E:=E) (P:=P) ulclose hf itf)
     | None => None
     end.
 
   Theorem eb_heap_restored n d k h c e h' : eb_final_heap n d k h c e = Some h' -> h' = h.
   Proof.
-    unfold eb_final_heap. destruct (nexts _ _ _ _ _ _ _ _ _) as [[[[hf itf] ys] r]|] eqn:N; [|discriminate].
+    unfold eb_final_heap. destruct (nexts _ _ _ _ _ _ _ _ _ _) as [[[[hf itf] ys] r]|] eqn:N; [|discriminate].
     intros H. injection H as <-.
-    exact (proj1 (@query_restores_unify E P prog n d k h c e hf itf ys r N)).
+    exact (proj1 (@query_restores_unify E P prog gho n d k h c e hf itf ys r N)).
   Qed.
 
   (* a search that ended by itself (exhausted, or by the RecursionError) holds no binding even before the close *)
   Theorem eb_heap_restored_at_end n d k h c e hf itf ys r :
-    nexts umkleaf ulnext ulclose prog n d k h (IFresh c e) = Some (hf, itf, ys, r) -> r <> RYield -> d <> 0 -> hf = h.
+    nexts umkleaf ulnext ulclose prog gho n d k h (IFresh c e) = Some (hf, itf, ys, r) -> r <> RYield -> hf = h.
   Proof.
-    intros N NY ND. exact (proj1 (proj2 (@query_restores_unify E P prog n d k h c e hf itf ys r N)) NY ND).
+    intros N NY. exact (proj1 (proj2 (@query_restores_unify E P prog gho n d k h c e hf itf ys r N)) NY).
   Qed.
 End EbHeap.
-Arguments eb_final_heap {E P} prog n d k h c e.
+Arguments eb_final_heap {E P} prog gho n d k h c e.
